@@ -136,7 +136,7 @@ def generic_alpha(rep, a):
 
 
 def main():
-    a, rep, replay = parse(PROP)
+    a, rep, replay = parse(PROP, aged=True)
     rep.assumptions = ["Hadamard(16)/4 columns give exactly orthonormal, zero-mean left singular vectors; overlaps (c, sqrt(1-c^2)) are Pythagorean",
                        "whitener covariance normalisation kappa in {n, n-1} accepted consistently (not fixed by the statement)",
                        "alpha outside {0, 1/2, 1}: measured against scipy/numpy eigh-based whitening"]
